@@ -1,5 +1,6 @@
 import DimodModel.GateBag
 import Generated.Gates
+import Generated.HocLayout
 
 /-! # C15 — higher-order reduction: executable models (core Lean only)
 
@@ -473,5 +474,184 @@ def samplePoly (child : Bq Label → Option (List (Label × Rat)) → Response)
     match init' with
     | none => none
     | some i' => some (polymorphResponse (normPoly vt raw) st.constraints keep discard (child b i'))
+
+/-! ## `polymorph_response`: the returned `SampleSet` as coded (record layout, info, errors)
+
+`dimod/reference/composites/higherordercomposites.py`: `penalty_satisfaction`, `polymorph_response`.  The child's
+sample set is a record array: one `sample` row per record (aligned with `variables`), its `energy`, and the other
+fields (`num_occurrences` and whatever vectors the child attached) in `record.dtype.names` order. -/
+
+/-- one record of a sample set -/
+structure RecRow where
+  sample : List Rat            -- `record.sample[i]`, aligned with `variables`
+  energy : Rat                 -- `record.energy[i]`
+  vectors : List Rat           -- `record[name][i]` for the remaining field names, in order
+
+/-- the child's `SampleSet` -/
+structure SampleSetM where
+  vars : List Label            -- `response.variables`
+  names : List String          -- `record.dtype.names` without the names of `Generated.HocLayout.notCarried` (`'sample'`, `'energy'`)
+  rows : List RecRow
+  info : List (String × String)  -- `response.info` (keys with opaque values), insertion order
+  vt : VT                      -- `response.vartype`
+
+/-- the exceptions `polymorph_response` can raise -/
+inductive HocErr where
+  | indexValueError          -- `response.variables.index(label)`: a label of the reduction is not a variable of the response
+  | energiesKeyError         -- `labeldict[v]` inside `poly.energies`: a variable of the polynomial is not in the response
+  | duplicateField           -- `np.empty(..., dtype=datatypes)`: the child's record already has a `penalty_satisfaction` field
+  deriving DecidableEq, Repr
+
+/-- `variables.index(v)` -/
+def indexOf? (v : Label) : List Label → Option Nat
+  | [] => none
+  | w :: r => if w = v then some 0 else (indexOf? v r).map (· + 1)
+
+/-- the value of the column labelled `v` in a sample row (`0` stands for "no such column"; never used then) -/
+def rowFn (vars : List Label) (s : List Rat) : Label → Rat :=
+  fun v => match indexOf? v vars with
+    | some i => s.getD i 0
+    | none => 0
+
+/-- the three column indices of one entry of `bqm.info['reduction']` -/
+def prodIdx (vars : List Label) (c : Pair × Label) : Option (Nat × Nat × Nat) :=
+  match indexOf? c.1.1 vars, indexOf? c.1.2 vars, indexOf? c.2 vars with
+  | some i, some j, some k => some (i, j, k)
+  | _, _, _ => none
+
+/-- all entries; `none` = `ValueError` of `.index` -/
+def prodIdxs (vars : List Label) : List (Pair × Label) → Option (List (Nat × Nat × Nat))
+  | [] => some []
+  | c :: r =>
+    match prodIdx vars c, prodIdxs vars r with
+    | some i, some rest => some (i :: rest)
+    | _, _ => none
+
+/-- `np.prod([...], axis=0)` for one row: the product of the 0/1 comparison results of all entries -/
+def satProduct (s : List Rat) : List (Nat × Nat × Nat) → Nat
+  | [] => 1
+  | (i, j, k) :: r => (if s.getD i 0 * s.getD j 0 == s.getD k 0 then 1 else 0) * satProduct s r
+
+/-- `penalty_satisfaction(response, bqm)`: all ones without a reduction; otherwise the product over ALL
+    `bqm.info['reduction']` entries of `sample[:, u] * sample[:, v] == sample[:, product]` -/
+def penaltyVector (reduction : List (Pair × Label)) (resp : SampleSetM) : Except HocErr (List Nat) :=
+  if reduction.isEmpty then .ok (resp.rows.map fun _ => 1) else
+  match prodIdxs resp.vars reduction with
+  | none => .error .indexValueError
+  | some idxs => .ok (resp.rows.map fun r => satProduct r.sample idxs)
+
+/-- `poly.energies((samples, response.variables))`: every variable of every term (also of zero-bias terms) is looked
+    up in `labeldict` whatever the number of rows -/
+def polyEnergiesM (poly : List (LTerm × Rat)) (vars : List Label) (samples : List (List Rat)) : Except HocErr (List Rat) :=
+  if poly.all (fun tb => tb.1.all (fun v => (indexOf? v vars).isSome)) then
+    .ok (samples.map fun s => polyEnergy (rowFn vars s) poly)
+  else .error .energiesKeyError
+
+/-- `[response.variables.index(v) for v in original_variables]` -/
+def colIdxs (vars : List Label) : List Label → Option (List Nat)
+  | [] => some []
+  | v :: r =>
+    match indexOf? v vars, colIdxs vars r with
+    | some i, some rest => some (i :: rest)
+    | _, _ => none
+
+/-- NumPy dtype of the `penalty_satisfaction` column as the code produces it -/
+inductive SatDtype where
+  | int64 | bool | float64
+  deriving DecidableEq, Repr
+
+/-- the value stored under an `info` key of the returned sample set -/
+inductive InfoVal where
+  | opaque (s : String)                         -- whatever the child put there
+  | reduction (r : List (Pair × Label))         -- `bqm.info['reduction']` (keys and product labels)
+  | strength (q : Rat)                          -- `penalty_strength`
+
+/-- `info[k] = v` -/
+def setInfo (l : List (String × InfoVal)) (k : String) (v : InfoVal) : List (String × InfoVal) :=
+  if l.any (fun e => e.1 = k) then l.map (fun e => if e.1 = k then (k, v) else e) else l ++ [(k, v)]
+
+structure OutRow where
+  sample : List Rat
+  energy : Rat
+  sat : Nat                    -- `penalty_satisfaction`
+  vectors : List Rat
+
+/-- the `SampleSet` that `polymorph_response` returns -/
+structure OutSet where
+  vars : List Label            -- its `variables`, in column order
+  fields : List String         -- `record.dtype.names`
+  satDtype : SatDtype
+  rows : List OutRow
+  info : List (String × InfoVal)
+  vt : VT
+
+/-- keep the entries of `l` whose flag is set (`array[samples_to_keep]`) -/
+def maskFilter {α : Type} : List α → List Bool → List α
+  | a :: l, b :: m => if b then a :: maskFilter l m else maskFilter l m
+  | _, _ => []
+
+/-- `samples[:, idxs]` (`none` = all columns are kept) -/
+def selectCols (sel : Option (List Nat)) (s : List Rat) : List Rat :=
+  match sel with
+  | none => s
+  | some idxs => idxs.map (fun i => s.getD i 0)
+
+/-- `polymorph_response(response, poly, bqm, penalty_strength, keep_penalty_variables, discard_unsatisfied)` as coded.
+    `order` = the iteration order of the set `poly.variables` (an oracle: a permutation of the polynomial's variables);
+    `strength` = `none` when `penalty_strength is None`. -/
+def polymorphRecord (poly : List (LTerm × Rat)) (order : List Label) (reduction : List (Pair × Label))
+    (strength : Option Rat) (keep discard : Bool) (resp : SampleSetM) : Except HocErr OutSet :=
+  match penaltyVector reduction resp with
+  | .error e => .error e
+  | .ok pv =>
+    -- `samples_to_keep`, and the penalty vector that is stored
+    let mask : List Bool := if discard then pv.map (fun n => n != 0) else resp.rows.map (fun _ => true)
+    let kept := maskFilter resp.rows mask
+    let stored : List Nat := if discard then kept.map (fun _ => 1) else pv
+    let dt : SatDtype :=
+      if discard then (if kept.isEmpty then .float64 else .bool)
+      else if reduction.isEmpty then (if resp.rows.isEmpty then .float64 else .int64) else .int64
+    match polyEnergiesM poly resp.vars (kept.map (·.sample)) with
+    | .error e => .error e
+    | .ok energies =>
+      match (if keep then some none else (colIdxs resp.vars order).map some) with
+      | none => .error .indexValueError
+      | some sel =>
+        -- a field name of the child equal to one of the leading fields (`penalty_satisfaction`; `sample` and `energy` are not carried over)
+        if resp.names.any (fun n => Generated.HocLayout.headFields.contains n) then .error .duplicateField else
+        let info0 : List (String × InfoVal) := resp.info.map (fun e => (e.1, InfoVal.opaque e.2))
+        let info1 := setInfo info0 Generated.HocLayout.reductionKey (.reduction reduction)
+        .ok { vars := if keep then resp.vars else order,
+              fields := Generated.HocLayout.headFields ++ resp.names,
+              satDtype := dt,
+              rows := (List.range kept.length).map (fun i =>
+                { sample := selectCols sel (kept.getD i ⟨[], 0, []⟩).sample,
+                  energy := energies.getD i 0,
+                  sat := stored.getD i 0,
+                  vectors := (kept.getD i ⟨[], 0, []⟩).vectors }),
+              info := match strength with
+                | none => info1
+                | some q => setInfo info1 Generated.HocLayout.strengthKey (.strength q),
+              vt := resp.vt }
+
+/-- `HigherOrderComposite(child).sample_poly(…)` returning the whole sample set: `child` maps the quadratic model and
+    the expanded initial state to its `SampleSet` -/
+def samplePolyRecord (child : Bq Label → Option (List (Label × Rat)) → SampleSetM)
+    (vt : VT) (raw : List (List Label × Rat)) (choices : List Pair) (order : List Label)
+    (strength : Rat) (keep discard : Bool) (init : Option (List (Label × Rat))) : Option (Except HocErr OutSet) :=
+  match makeQuadratic [] vt strength raw choices with
+  | none => none
+  | some (bag, st, auxs) =>
+    let b := (Bq.empty vt : Bq Label).apply bag
+    let red := (List.range st.constraints.length).map (fun i =>
+      ((st.constraints.getD i ((Label.int 0, Label.int 0), Label.int 0)).1,
+       (st.constraints.getD i ((Label.int 0, Label.int 0), Label.int 0)).2, auxs[i]?))
+    let init' : Option (Option (List (Label × Rat))) :=
+      match init with
+      | none => some none
+      | some s => if st.constraints.isEmpty then some (some s) else (expandInitialState b red s).map some
+    match init' with
+    | none => none
+    | some i' => some (polymorphRecord (normPoly vt raw) order st.constraints (some strength) keep discard (child b i'))
 
 end Red
